@@ -23,8 +23,19 @@ Children(r, a) ==
   \cup { [child |-> "orphanexit", cn |-> OtherCode(a)] }
   \cup { [child |-> "orphankilled", cn |-> s] : s \in KillSigs }
 
+\* core = 1: core dumps are enabled for the program (RLIMIT_CORE > 0 through the runner's RLimits,
+\* writable work dir): "every way a program can end" includes ending with a core dump.  The class and
+\* the signal number must not depend on it.
+CoreAttempts ==
+       { [kind |-> "raise", n |-> s] : s \in CoreSigs }
+  \cup { [kind |-> "fault", n |-> s] : s \in FaultSigs }
+  \cup { [kind |-> "sys",   n |-> SIGSYS] }
+CoreChildren == { [child |-> "none", cn |-> 0], [child |-> "orphankilled", cn |-> SIGSEGV] }
+
 RealCases ==
-  UNION { UNION { { [runner |-> r, kind |-> a.kind, n |-> a.n, child |-> c.child, cn |-> c.cn] : c \in Children(r, a) }
+  UNION { UNION { { [runner |-> r, kind |-> a.kind, n |-> a.n, child |-> c.child, cn |-> c.cn, core |-> 0] : c \in Children(r, a) }
                   : a \in Attempts(r) } : r \in Runners }
-  \cup { [runner |-> r, kind |-> "badexec", n |-> 0, child |-> "none", cn |-> 0] : r \in Runners }
+  \cup { [runner |-> r, kind |-> "badexec", n |-> 0, child |-> "none", cn |-> 0, core |-> 0] : r \in Runners }
+  \cup { [runner |-> r, kind |-> a.kind, n |-> a.n, child |-> c.child, cn |-> c.cn, core |-> 1] :
+            r \in Runners, a \in CoreAttempts, c \in CoreChildren }
 =============================================================================
